@@ -48,6 +48,7 @@ func checkStopPng(p *Program, r *Report) {
 	e1, e2 := true, true
 	n1, n2 := 0, 0
 	why1, why2 := "", ""
+	stopSeen := map[string]bool{}
 	for _, o := range pr.Succ {
 		_, _, tags := pngChain(e, o)
 		if len(tags) == 0 {
@@ -85,12 +86,16 @@ func checkStopPng(p *Program, r *Report) {
 			}
 		} else if last.Equal && (last.Tag == "IDAT" || last.Tag == "IEND") {
 			n2++
+			stopSeen[last.Tag] = true
 			if !final.Equal(last.Off.Add(formInt(4))) {
 				e2, why2 = false, "after an IDAT/IEND header the parser reads on: the path ends at "+trunc(final.Key(), 80)+" instead of right after the chunk header"
 			}
 		}
 	}
 	r.Check(e1 && n1 > 0, "C18.E1", "png stop when complete", pos, fmt.Sprintf("on %d explored paths with IHDR and a profile: the path ends exactly at the end of the completing chunk, no further chunk header is read", n1), why1)
+	if e2 && !(stopSeen["IDAT"] && stopSeen["IEND"]) {
+		e2, why2 = false, fmt.Sprintf("the parser does not stop at both IDAT and IEND (stop arms seen: %v): the chunk that starts the pixel data is skipped byte by byte like an ancillary chunk, pulling the whole image body", keysOf(stopSeen))
+	}
 	r.Check(e2 && n2 > 0, "C18.E2", "png stop at pixel data", pos, fmt.Sprintf("on %d paths: IDAT/IEND stop the parser right after the 8-byte chunk header", n2), why2)
 }
 
@@ -110,6 +115,7 @@ func checkStopJpeg(p *Program, r *Report) {
 	e1, e2 := true, true
 	n1, n2 := 0, 0
 	why1, why2 := "", ""
+	jpegStops := map[int64]bool{}
 	for _, o := range pr.Outs {
 		if o.Kind == "stuck" {
 			continue
@@ -159,6 +165,15 @@ func checkStopJpeg(p *Program, r *Report) {
 		}
 		if stopAt >= 0 {
 			n2++
+			for _, c := range o.St.conds {
+				if c.Op == "==" && strings.Contains(c.Key(), ".Type(") {
+					if b, ok := c.B.(*Form); ok {
+						if cv, isC := b.ConstInt(); isC && (cv == 0xda || cv == 0xd9) {
+							jpegStops[cv] = true
+						}
+					}
+				}
+			}
 			for _, ev := range o.St.events {
 				if ev.Kind == "call" && strings.Contains(ev.Fn, "ReadSegment") && ev.CondIdx > stopAt {
 					e2, why2 = false, "a segment is read after SOS/EOI"
@@ -167,6 +182,9 @@ func checkStopJpeg(p *Program, r *Report) {
 		}
 	}
 	r.Check(e1 && n1 > 0, "C18.E1", "jpeg stop when complete", pos, fmt.Sprintf("on %d explored paths: once SOF and all declared ICC chunks are in, no further segment is read", n1), why1)
+	if e2 && !(jpegStops[0xda] && jpegStops[0xd9]) {
+		e2, why2 = false, "the parse loop does not stop at both SOS (0xDA) and EOI (0xD9): entropy-coded data would be scanned"
+	}
 	r.Check(e2 && n2 > 0, "C18.E2", "jpeg stop at SOS/EOI", pos, fmt.Sprintf("on %d paths: SOS/EOI end the parse loop without another read", n2), why2)
 }
 
